@@ -340,18 +340,20 @@ fn concurrent_cases(t: Tier) -> Vec<CodeCase> {
 /// one case per AR4JA code with k <= 4096: the matrix is built inside a rayon pool of a single thread
 /// (a one-CPU container, RAYON_NUM_THREADS=1): same pinned digest, and the call returns
 fn single_thread_cases(_t: Tier) -> Vec<CodeCase> {
-    CODES.iter().filter(|c| c.2 <= 4096).map(|c| CodeCase { code: c.0.to_string(), rank: false, encoder_messages: 0, seed: 0 }).collect()
+    CODES.iter().filter(|c| c.2 <= 4096).flat_map(|c| [1u64, 3].map(|t| CodeCase { code: c.0.to_string(), rank: false, encoder_messages: 0, seed: t })).collect()
 }
 
 fn check_single_thread(case: &CodeCase, p: &mut Probe) -> Check {
     let digests = read_digests(&golden_dir().join("ccsds").join("DIGESTS"));
     let c = CODES.iter().find(|c| c.0 == case.code).ok_or_else(|| Fail::new("harness", format!("unknown code {}", case.code)))?;
     let (name, rate, k, m) = (c.0, c.1, c.2, c.3);
-    let pool = rayon::ThreadPoolBuilder::new().num_threads(1).build().map_err(|e| Fail::new(INCONCLUSIVE, format!("cannot build a rayon pool: {e}")))?;
-    let h = guarded(|| pool.install(|| library_code(rate, k).h())).map_err(|e| Fail::new("panic", format!("{name}: h() panicked inside a single-thread rayon pool: {e}")))?;
+    // pools of one thread and of three (a worker count that divides no power of two)
+    let threads = if case.seed == 3 { 3 } else { 1 };
+    let pool = rayon::ThreadPoolBuilder::new().num_threads(threads).build().map_err(|e| Fail::new(INCONCLUSIVE, format!("cannot build a rayon pool: {e}")))?;
+    let h = guarded(|| pool.install(|| library_code(rate, k).h())).map_err(|e| Fail::new("panic", format!("{name}: h() panicked inside a rayon pool of {threads} thread(s): {e}")))?;
     let got = columns_digest(3 * m, &sorted_columns(&h));
     let want = digests.get(name).ok_or_else(|| Fail::new("golden-missing", format!("{name}: no pinned digest")))?;
-    ensure!(&got == want, "single-thread-build", "{name}: the matrix built inside a single-thread rayon pool differs from the pinned reference (digest {got})");
+    ensure!(&got == want, "single-thread-build", "{name}: the matrix built inside a rayon pool of {threads} thread(s) differs from the pinned reference (digest {got})");
     p.inner += 1;
     p.nontrivial();
     Ok(())
@@ -395,7 +397,7 @@ pub fn property() -> Property {
         }),
         Box::new(EnumSub {
             name: "single-thread-pool",
-            rule: "the six AR4JA codes with k <= 4096, each built inside a rayon pool of one thread (a one-CPU container): the call returns (a call that has not returned after 60 s is reported) and the matrix has the pinned digest",
+            rule: "the six AR4JA codes with k <= 4096, each built inside a rayon pool of one thread (a one-CPU container) and of three threads (a worker count that is not a power of two): the call returns (a call that has not returned after 60 s is reported) and the matrix has the pinned digest",
             cases: single_thread_cases,
             check: check_single_thread,
             exhaustive: false,
